@@ -22,7 +22,7 @@ func init() { Registry["C17"] = C17 }
 const c17Mod = "example.com/c17-mod.z"
 
 // package name -> directory below the module root
-var c17Dirs = map[string]string{"good": "good", "goodffi": "goodffi", "partial": "partial", "allbad": "allbad", "tagged": "tagged", "nested": "sub.d/p-q", "latebad": "latebad", "earlybad": "earlybad", "cgotag": "cgotag"}
+var c17Dirs = map[string]string{"good": "good", "goodffi": "goodffi", "partial": "partial", "allbad": "allbad", "tagged": "tagged", "nested": "sub.d/p-q", "latebad": "latebad", "earlybad": "earlybad", "cgotag": "cgotag", "nofiles": "nofiles", "missing": "no-such-dir"}
 
 func c17Sources(pkg string, ver int) map[string]string {
 	switch pkg {
@@ -54,6 +54,9 @@ func c17Sources(pkg string, ver int) map[string]string {
 			"a_first.go": "package earlybad\n\nfunc Ok1() uint64 {\n\treturn 1\n}\n\nfunc Bad(x uint64) uint64 {\n\tdefer func() {}()\n\treturn x\n}\n",
 			"m_mid.go":   "package earlybad\n\nfunc Ok2() uint64 {\n\treturn Ok1() + 2\n}\n",
 			"z_last.go":  "package earlybad\n\nfunc Ok3() uint64 {\n\treturn Ok2() + 3\n}\n"}
+	case "nofiles":
+		// every file is excluded by the goose build tag: the Go toolchain reports "build constraints exclude all Go files"
+		return map[string]string{"x.go": "//go:build !goose\n\npackage nofiles\n\nfunc F() uint64 {\n\treturn 1\n}\n"}
 	case "nested":
 		return map[string]string{"n.go": "package p_q\n\nfunc N() uint64 {\n\treturn 9\n}\n"}
 	case "latebad":
@@ -71,6 +74,9 @@ func c17Sources(pkg string, ver int) map[string]string {
 func c17Write(root, pkg string, ver int) {
 	d := filepath.Join(root, c17Dirs[pkg])
 	_ = os.RemoveAll(d)
+	if pkg == "missing" {
+		return // a pattern naming a directory that does not exist
+	}
 	_ = os.MkdirAll(d, 0755)
 	for n, s := range c17Sources(pkg, ver) {
 		_ = os.WriteFile(filepath.Join(d, n), []byte(s), 0644)
@@ -286,6 +292,30 @@ func C17(c *ev.Ctx) {
 			c.Violation("c17.exit-0-without-file", fmt.Sprintf("a regular file occupies the place of the output directory of package nested: goose exits 0 although no file was written for that package\n%s", firstLines(msg, 6)), map[string]string{"tree.txt": listTree(out)})
 		}
 		_ = os.RemoveAll(out)
+	}
+	// import paths of one element: the root package of a module whose path has no slash, and its sub-package
+	{
+		solo := filepath.Join(c.Scratch, "c17solo")
+		_ = os.RemoveAll(solo)
+		_ = os.MkdirAll(filepath.Join(solo, "sub"), 0755)
+		_ = os.WriteFile(filepath.Join(solo, "go.mod"), []byte("module solo17\n\ngo 1.22\n"), 0644)
+		_ = os.WriteFile(filepath.Join(solo, "r.go"), []byte("package solo17\n\nfunc R() uint64 {\n\treturn 3\n}\n"), 0644)
+		_ = os.WriteFile(filepath.Join(solo, "sub", "s.go"), []byte("package sub\n\nfunc S() uint64 {\n\treturn 4\n}\n"), 0644)
+		out := filepath.Join(c.Scratch, "c17soloout")
+		for _, pats := range [][]string{{"."}, {"./..."}, {"./sub", "."}} {
+			_ = os.RemoveAll(out)
+			msg, code := run(solo, append([]string{"-out", out, "-dir", solo}, pats...)...)
+			want := "solo17.v"
+			if len(pats) > 1 || pats[0] == "./..." {
+				want = "solo17.v\nsolo17/sub.v"
+			}
+			if got := listTree(out); code != 0 || got != want {
+				c.Violation("c17.one-element-import-path", fmt.Sprintf("module solo17 (module path of one element), goose %v: exit %d, files under -out %q, expected %q (the import path with '.' and '-' mapped to '_', plus .v)\n%s", pats, code, got, want, firstLines(msg, 5)), map[string]string{"tree.txt": got})
+				break
+			}
+		}
+		_ = os.RemoveAll(out)
+		_ = os.RemoveAll(solo)
 	}
 	// a directory on another file system (tmpfs) if there is one
 	otherFs := ""
